@@ -71,6 +71,15 @@ pub fn check(runs: &mut usize, fails: &mut Vec<Failure>) {
         ("program against specification: position of .spec, .ug, .po", ext,
             vec![("in/prog.lp", A), ("in/s.spec", SPEC), ("in/g.ug", UG), ("in/o.po", PO), ("in/d/s.spec", SPEC), ("in/d/g.ug", UG), ("in/d/o.po", PO), ("in/d/prog.lp", A)],
             vec![vec!["prog.lp", "s.spec", "g.ug", "o.po"], vec!["s.spec", "o.po", "g.ug", "prog.lp"], vec!["o.po", "g.ug", "s.spec", "prog.lp"], vec!["d"], vec!["g.ug", "prog.lp", "o.po", "s.spec"]]),
+        ("a directory whose file names differ in letter case, digits and dots: byte-wise file-name order", ext,
+            vec![("in/d/a.lp", B), ("in/d/B.lp", A), ("in/d/g.ug", UG), ("in/B.lp", A), ("in/a.lp", B), ("in/g.ug", UG)],
+            vec![vec!["B.lp", "a.lp", "g.ug"], vec!["d"], vec!["d/B.lp", "d/a.lp", "d/g.ug"]]),
+        ("a directory with x.10.lp and x.9.lp", ext,
+            vec![("in/d/x.9.lp", B), ("in/d/x.10.lp", A), ("in/d/Z.ug", UG), ("in/d/z.txt", "p."), ("in/x.10.lp", A), ("in/x.9.lp", B), ("in/Z.ug", UG)],
+            vec![vec!["x.10.lp", "x.9.lp", "Z.ug"], vec!["d"]]),
+        ("nested directories", ext,
+            vec![("in/d/sub/b.lp", B), ("in/d/a.lp", A), ("in/d/sub/deeper/g.ug", UG), ("in/a.lp", A), ("in/b.lp", B), ("in/g.ug", UG)],
+            vec![vec!["a.lp", "b.lp", "g.ug"], vec!["d"]]),
         ("strong equivalence: a directory and argument order", strong,
             vec![("in/d/m.lp", A), ("in/d/n.lp", B), ("in/m.lp", A), ("in/n.lp", B)],
             vec![vec!["m.lp", "n.lp"], vec!["d"], vec!["d/m.lp", "n.lp"]]),
